@@ -4,6 +4,7 @@
 # builds + vets with the change, demo FAILS with it, the unedited suite PASSES with it, demo PASSES without it.
 # On success copies patch.diff / demo_test.go / NOTES.md to /verif/seeded/<seed-id>/ and writes confirm.json.
 set -u
+DEMO_FLAGS=${DEMO_FLAGS:-}   # e.g. -race for demonstrations that need the race detector
 SRC=$1; ID=$2; PROP=$3
 WT=/tmp/confirm-$ID
 OUT=/verif/seeded/$ID
@@ -18,12 +19,12 @@ go build ./... && BUILD=ok
 go vet . >/dev/null 2>&1 && VET=ok
 TESTNAME=$(grep -o 'func TestSeed[A-Za-z0-9_]*' $SRC/demo_test.go | head -1 | sed 's/func //')
 cp $SRC/demo_test.go $WT/seed_demo_test.go
-if unshare -n sh -c "ip link set lo up; cd $WT && go test -vet=off -count=1 -timeout 10m -run '^${TESTNAME}\$' . " > /tmp/confirm-$ID.demo_with.log 2>&1; then DEMO_WITH=pass; else DEMO_WITH=fail; fi
+if unshare -n sh -c "ip link set lo up; cd $WT && go test $DEMO_FLAGS -vet=off -count=1 -timeout 10m -run '^${TESTNAME}\$' . " > /tmp/confirm-$ID.demo_with.log 2>&1; then DEMO_WITH=pass; else DEMO_WITH=fail; fi
 rm -f $WT/seed_demo_test.go
 if unshare -n sh -c "ip link set lo up; cd $WT && go test -vet=off -count=1 -timeout 25m ./..." > /tmp/confirm-$ID.suite.log 2>&1; then SUITE=pass; else SUITE=fail; fi
 git checkout -q -- .
 cp $SRC/demo_test.go $WT/seed_demo_test.go
-if unshare -n sh -c "ip link set lo up; cd $WT && go test -vet=off -count=1 -timeout 10m -run '^${TESTNAME}\$' . " > /tmp/confirm-$ID.demo_without.log 2>&1; then DEMO_WITHOUT=pass; else DEMO_WITHOUT=fail; fi
+if unshare -n sh -c "ip link set lo up; cd $WT && go test $DEMO_FLAGS -vet=off -count=1 -timeout 10m -run '^${TESTNAME}\$' . " > /tmp/confirm-$ID.demo_without.log 2>&1; then DEMO_WITHOUT=pass; else DEMO_WITHOUT=fail; fi
 cd /
 git -C /repo worktree remove --force $WT
 echo "$ID build=$BUILD vet=$VET demo_with_change=$DEMO_WITH suite_with_change=$SUITE demo_without_change=$DEMO_WITHOUT"
@@ -35,7 +36,7 @@ if [ $BUILD = ok ] && [ $DEMO_WITH = fail ] && [ $SUITE = pass ] && [ $DEMO_WITH
   cat > $OUT/confirm.json <<EOJ
 {"seed": "$ID", "property": "$PROP", "base_commit": "$(git -C /repo rev-parse HEAD)", "build": "$BUILD", "vet": "$VET",
  "demo_with_change": "$DEMO_WITH", "existing_suite_with_change": "$SUITE", "demo_without_change": "$DEMO_WITHOUT",
- "demo_test": "$TESTNAME",
+ "demo_test": "$TESTNAME", "demo_flags": "$DEMO_FLAGS",
  "commands": ["git apply patch.diff; go build ./...; go vet .", "go test -vet=off -count=1 -run ^$TESTNAME\$ .  (with change: FAIL)",
               "go test -vet=off -count=1 -timeout 25m ./...  (with change, demo removed, private netns: PASS)",
               "git checkout -- .; go test -run ^$TESTNAME\$ .  (without change: PASS)"]}
